@@ -24,9 +24,11 @@ fn build_m(pat: usize, m: usize, n: usize, dev: Option<(usize, usize)>) -> Vec<V
     a
 }
 const COORDS: [f64; 5] = [-4.0, -1.5, 0.0, 0.25, 3.0];
+/// largest n whose point lattice {-4,-1.5,0,0.25,3}^n is enumerated completely (3 quick, 5 thorough)
+static FULL_POINTS_UPTO: std::sync::atomic::AtomicUsize = std::sync::atomic::AtomicUsize::new(3);
 fn points(n: usize) -> Vec<Vec<f64>> {
     let mut pts = vec![];
-    if n <= 3 {
+    if n <= FULL_POINTS_UPTO.load(std::sync::atomic::Ordering::Relaxed) {
         for idx in 0..pow(5, n as u32) {
             let mut d = vec![0usize; n];
             digits_uniform(idx, 5, &mut d);
@@ -174,11 +176,14 @@ fn smooth_case(m: usize, n: usize, acc: &mut Acc) -> Result<(), String> {
 fn main() {
     let ctx = Ctx::from_args("C18");
     ctx.level("exploration");
-    ctx.rule("E1: every shape (m,n) in 1..6 x 1..6 (m<n, m=n, m>n), affine maps x -> Mx + c with two dyadic matrices, every single-entry deviation of M and every zero column of M (a variable the map ignores), every point of {-4,-1.5,0,0.25,3}^n for n<=3 and 5 corner/centre points above, every step 2^-4..2^-26 and 1e-8, through Mat64::jacobian and Matrix::<Cmplx>::jacobian_cmplx (plus twelve larger shapes up to 64 x 2 / 5 x 33): shape exactly m x n, entries exactly M for dyadic steps (all arithmetic exact) and within rounding for 1e-8; the closure logs its arguments: call 0 is the point, call j+1 is the point with coordinate j increased by exactly delta and all others restored; smooth maps within 10*delta*max|F''|. Non-trivial: m < n, m > n, n >= 2.");
+    ctx.rule("E1: every shape (m,n) in 1..6 x 1..6 (m<n, m=n, m>n), affine maps x -> Mx + c with two dyadic matrices, every single-entry deviation of M and every zero column of M (a variable the map ignores), every point of {-4,-1.5,0,0.25,3}^n for n<=3 (thorough n<=5) and 5 corner/centre points above, every step 2^-4..2^-26 and 1e-8, through Mat64::jacobian and Matrix::<Cmplx>::jacobian_cmplx (plus twelve larger shapes up to 64 x 2 / 5 x 33): shape exactly m x n, entries exactly M for dyadic steps (all arithmetic exact) and within rounding for 1e-8; the closure logs its arguments: call 0 is the point, call j+1 is the point with coordinate j increased by exactly delta and all others restored; smooth maps within 10*delta*max|F''|. Non-trivial: m < n, m > n, n >= 2.");
     ctx.assume("exactness for dyadic data relies on every product and sum fitting in 53 bits, which holds for the chosen alphabets");
     ctx.threshold("smooth_jacobian_error_over_tolerance", 1.0);
     ctx.require(&["wide (m < n)", "tall (m > n)", "jacobian calls", "shape with m or n above 6"]);
     let thorough = true; // single-entry deviations are cheap enough for both tiers
+    if ctx.thorough() {
+        FULL_POINTS_UPTO.store(5, std::sync::atomic::Ordering::Relaxed);
+    }
     ctx.lattice(
         "affine maps, shapes (m,n) in 1..6 x 1..6 x 2 matrices",
         72,
